@@ -34,6 +34,29 @@ var storeAdvances = []time.Duration{1, time.Second, 30 * time.Second, 59 * time.
 
 var nonceDeltas = []time.Duration{-15*time.Minute - 1, -15 * time.Minute, -15*time.Minute + 1, -14 * time.Minute, -time.Second, -1, 0, 1, time.Second, time.Minute, 20 * time.Minute, 2 * time.Hour}
 
+// Identifier styles. The short alphabet makes collisions the norm; the other two give identifiers the shapes real
+// ones have - 128-digit node ids and 42-character wallet addresses that share long prefixes, and ids that are
+// prefixes of one another - for everything that depends on length or on a common prefix (keys built by formatting,
+// prefix seeks, abbreviation).
+var storeAlphabets = map[string][2][]string{
+	"short": {{"a", "b", "c", "d"}, {"X", "Y"}},
+	"realistic": {{
+		"5b7f3c9e" + strings.Repeat("0", 112) + "aaaaaaa1",
+		"5b7f3c9e" + strings.Repeat("0", 112) + "aaaaaaa2",
+		"c1" + strings.Repeat("7", 126),
+		"0d" + strings.Repeat("e", 126),
+	}, {"0x52a9D1c4F0e7B6a5948372615Fedcba098765401", "0x52a9D1c4F0e7B6a5948372615Fedcba098765402"}},
+	"nested": {{"aa", "aabb", "aabbcc", "b"}, {"acct-0000000000001", "acct-0000000000002"}},
+}
+
+// useStoreAlphabet picks the identifier style of one generated case (restore with the returned function).
+func useStoreAlphabet(t *rapid.T) (style string, restore func()) {
+	style = rapid.SampledFrom([]string{"short", "short", "realistic", "nested"}).Draw(t, "identifierStyle")
+	oldN, oldA := storeNodes, storeAccts
+	storeNodes, storeAccts = storeAlphabets[style][0], storeAlphabets[style][1]
+	return style, func() { storeNodes, storeAccts = oldN, oldA }
+}
+
 func genNodeID(t *rapid.T, label string) string {
 	if rapid.IntRange(0, 19).Draw(t, label+"Empty") == 0 {
 		return ""
@@ -54,7 +77,9 @@ func genPeerList(t *rapid.T) []string {
 	for i := 0; i < n; i++ {
 		switch rapid.IntRange(0, 9).Draw(t, "peerClass") {
 		case 0:
-			r = append(r, rapid.SampledFrom([]string{"zz", "unknown", ""}).Draw(t, "unknownPeer"))
+			// ids the store does not know - among them a strict prefix of a known id and a known id with a tail
+			known := storeNodes[rapid.IntRange(0, len(storeNodes)-1).Draw(t, "nearKnown")]
+			r = append(r, rapid.SampledFrom([]string{"zz", "unknown", "", known[:(len(known)+1)/2] + "", known + "0", known[:len(known)-1]}).Draw(t, "unknownPeer"))
 		default:
 			r = append(r, rapid.SampledFrom(storeNodes).Draw(t, "peer"))
 		}
